@@ -225,8 +225,43 @@ def _r4(ctx):
         inits = [a for a in C.assigns_to(f.node, U(acc[0][1]["M_r"])) if U(a.value) == "False"] if acc else []
         ctx.check(ok and bool(inits), "R4", "%s = disjunction of all hits, initially False" % name, f.where(),
                   "%s does not accumulate its hits with `or` starting from False" % name, f.qname, "%s accumulation" % name)
-        ctx.check(len(acc) >= len([t for t in want]), "R4", "%s: every hit is accumulated" % name, f.where(),
-                  "%s computes a hit without or-ing it into the result" % name, f.qname, "%s all hits accumulated" % name)
+        # every consulted part contributes on its own: the dependence test of one part of an operand is not made
+        # conditional on ANOTHER part of the same operand being present, and its value flows into the accumulated result
+        res = U(acc[0][1]["M_r"]) if acc else None
+        n_calls = 0
+        for loop in [n for n in ast.walk(f.node) if isinstance(n, ast.For) and C.is_call_to(n.iter, "chain")]:
+            var = U(loop.target)
+            for c in C.calls_to(loop, "is_reg_dependend_of", "is_flag_dependend_of"):
+                if len(c.args) < 2 or U(c.args[0]) != f.params()[1]:
+                    continue
+                n_calls += 1
+                tgt = U(c.args[1])
+                part = tgt.replace(var + ".", "") if tgt != var else "self"
+                foreign = []
+                for e, pol in C.facts_at(c, stop=loop):
+                    if any(isinstance(x, ast.Call) and pm.call_name(x).split(".")[-1] in ("is_reg_dependend_of", "is_flag_dependend_of")
+                           for x in ast.walk(e)):
+                        continue        # "only if an earlier part did not hit": the result is a disjunction anyway
+                    others = {U(x) for x in ast.walk(e) if isinstance(x, ast.Attribute) and U(x.value) == var and U(x) != tgt
+                              and x.attr in ("base", "index", "offset")}
+                    if others:
+                        foreign.append((U(e), pol, sorted(others)))
+                # the call's value reaches `<result> = ... or <result>`
+                st = c
+                while st is not None and not isinstance(st, ast.stmt):
+                    st = C.parent(st)
+                flows = isinstance(st, ast.Assign) and U(st.targets[0]) == res and res in [U(x) for x in ast.walk(st.value) if isinstance(x, ast.Name)]
+                if foreign:
+                    ctx.bad("R4", "%s: %s of %s consulted independently" % (name, part, var), f.where(c),
+                            "the %s of `%s` is tested for a dependence only under `%s%s`, a condition on ANOTHER part of the operand (%s): "
+                            "an operand that has the one but not the other - x86 `disp(,%%index,scale)` has an index and no base - is "
+                            "then not seen as a %s of its %s register and the edge from that register's last writer disappears"
+                            % (part, var, "" if foreign[0][1] else "not ", foreign[0][0], ", ".join(foreign[0][2]),
+                               "read" if name == "is_read" else "write", part), f.qname, "%s %s independent" % (name, tgt))
+                else:
+                    ctx.judge(flows, flows or isinstance(st, ast.Assign), "R4", "%s: %s of %s consulted independently and accumulated" % (name, part, var),
+                              f.where(c), "the dependence test on %s is not or-ed into %s" % (tgt, res), f.qname, "%s %s accumulated" % (name, tgt))
+        ctx.floor("R4", "%s: dependence tests on operand parts" % name, n_calls, 4)
 
 
 def _eval_bool(expr, env):
